@@ -297,6 +297,16 @@ def strings(draw):
                              min_size=1, max_size=7))
         return draw(st.sampled_from([" ", " ", ", ", "-", "/"])).join(toks)[:100], "soup"
     if k <= 7:
+        if draw(st.booleans()):
+            # "residue" strings: once the library has popped the zone / dropped skip words there is little or nothing left
+            lang = draw(st.sampled_from(data.language_order()[:40]))
+            inf = data.raw_info(lang)
+            fill = [w for w in (inf.get("skip", []) + inf.get("pertain", [])) if w.strip()] or ["at"]
+            zone = draw(st.sampled_from(["EST", "UTC", "est", "+05:00", "-0800", "UTC+3", "GMT-2", "Z", "MSK", "CET", "(EST)", "IST", "+0000",
+                                          "UTC+14:00", "PST", "AEST"]))
+            pre = draw(st.lists(st.sampled_from(fill), max_size=2))
+            post = draw(st.lists(st.sampled_from(fill + ["am", "pm", ":", "-", "."]), max_size=1))
+            return " ".join(pre + [zone] + post)[:100], "soup"
         return draw(st.text(alphabet="0123456789:/-. ,+", min_size=1, max_size=30)), "digits"
     return draw(st.text(max_size=100)), "unicode"
 
